@@ -185,7 +185,7 @@ func invalidate(r *verifrt.Rand, rep *jreport) (body []byte, why string) {
 		why = "program"
 	case 7:
 		p := ensureProg()
-		p.Version = verifrt.Pick(r, []string{"v1.2.30", "v1.2", "", "devel"})
+		p.Version = verifrt.Pick(r, []string{"v1.2.30", "v1.2", "", "devel", "v1.2.3+dirty", "v0.14.0+incompatible", "v0.14", "v1.2.3 ", "V1.2.3", "1.2.3", "v1.2.3-"})
 		if r.Intn(3) == 0 {
 			// a module program claiming the (approved) Go version as its own
 			// version: approved versions are per program
